@@ -206,6 +206,31 @@ pub fn run(args: &Args) -> i32 {
             }
         }
     }
+    // synthetic projects: generated BDL inside the XML envelope of a shipped project
+    let thorough = args.tier == "thorough";
+    if let Some(template) = project_dirs().into_iter().find(|d| d.file_name().map(|n| n == "cubo").unwrap_or(false)) {
+        if let Ok(Some(f)) = hulc::ctehexml::find_ctehexml(&template.to_string_lossy()) {
+            if let Ok(xml) = std::fs::read_to_string(&f) {
+                if let (Some(a), Some(b)) = (xml.find("<EntradaGraficaLIDER>"), xml.find("</EntradaGraficaLIDER>")) {
+                    let mut rng = crate::rng::Rng::new(args.seed ^ 0xC01);
+                    for i in 0..(if thorough { 40 } else { 6 }) {
+                        let p = crate::bdlgen::gen_proj(&mut rng, &crate::bdlgen::GenOpts { rotated_spaces: i % 3 == 2, polygon_outlines: i % 2 == 1 });
+                        let bdl = crate::bdlgen::print_proj(&p).replace('&', "&amp;").replace('<', "&lt;").replace('>', "&gt;");
+                        let text = format!("{}<EntradaGraficaLIDER>\n{}\n{}", &xml[..a], bdl, &xml[b..]);
+                        let dst = tmp.join(format!("synthetic{i}"));
+                        std::fs::create_dir_all(&dst).ok();
+                        let file = dst.join(format!("synthetic{i}.ctehexml"));
+                        if std::fs::write(&file, text).is_ok() {
+                            for extra in [false, true] {
+                                run_tool(&mut cw, &bindir, &format!("synthetic{i}:{}", if extra { "extra" } else { "default" }), &dst.to_string_lossy(), extra);
+                            }
+                            run_thor(&mut cw, &bindir, &format!("thor:synthetic{i}"), &file, &tmp);
+                        }
+                    }
+                }
+            }
+        }
+    }
     // directories without a project
     let empty = tmp.join("empty");
     std::fs::create_dir_all(&empty).ok();
